@@ -48,13 +48,52 @@ Theorem C15_greater_accepts_strict : forall acc figs (e a : F64),
 Proof. exact greater_accepts_strict. Qed.
 Print Assumptions C15_greater_accepts_strict.
 
-(* The two-sided tolerance bound of the property,
-     accepted -> |x - y| <= max(|x|,|y|) * 10^(1-n)   and   |x - y| < max(|x|,|y|) * 10^(-n) -> accepted,
-   is NOT proved here: it depends on how far libm's log10, floor and pow are from the real
-   functions, which no hypothesis short of "libm is exact" makes true without slack (see the
-   known finding for C15).  It is evaluated with exact rational arithmetic on every probe of the
-   correspondence run (testing), and the part of it that is cgreen's - the exponent
-   1 + floor(log10 |L|) - n and the use of fabs - is pinned by the lemma below. *)
+(* THE TOLERANCE, two-sided and exact, against the tolerance value T the comparison is handed
+   (what accuracy() returned; `acc` is any function that returns T for this figures setting, which
+   is how the correspondence run feeds the model the value the real libm produced).  Rounding to
+   nearest is monotone and T is itself a double, so no rounding slack is lost:
+     accepted  ->  |x - y| < max(absolute tolerance, T)          as real numbers
+     |x - y| <= u < T for some double u (its predecessor, say)  ->  accepted                      *)
+Theorem C15_accepted_within_tolerance : forall acc figs (x y T : F64),
+  (forall L, acc figs L = T) -> is_finite x = true -> is_finite y = true -> is_finite T = true ->
+  eq_m acc figs x y = true -> (Rabs (B2R x - B2R y) < Rmax (B2R abs_tol) (B2R T))%R.
+Proof. exact eq_accepted_within. Qed.
+Print Assumptions C15_accepted_within_tolerance.
+
+Theorem C15_within_tolerance_accepted : forall acc figs (x y T u : F64),
+  (forall L, acc figs L = T) -> is_finite x = true -> is_finite y = true -> is_finite T = true -> is_finite u = true ->
+  (B2R u < B2R T)%R -> (Rabs (B2R x - B2R y) <= B2R u)%R -> eq_m acc figs x y = true.
+Proof. exact eq_within_accepted. Qed.
+Print Assumptions C15_within_tolerance_accepted.
+
+(* the documented bound max(|x|,|y|) * 10^(1-n), for every libm whose tolerance value is within a
+   factor (1 + eps) of it - the hypothesis is what the probes measure (known finding: eps is a few
+   ulps just below a power of ten, 0 elsewhere) *)
+Theorem C15_accepted_documented_bound : forall acc figs (x y T : F64) (eps : R),
+  (forall L, acc figs L = T) -> is_finite x = true -> is_finite y = true -> is_finite T = true ->
+  (B2R T <= Rmax (Rabs (B2R x)) (Rabs (B2R y)) * Rpower 10 (1 - IZR figs) * (1 + eps))%R ->
+  eq_m acc figs x y = true ->
+  (Rabs (B2R x - B2R y) < Rmax (B2R abs_tol) (Rmax (Rabs (B2R x)) (Rabs (B2R y)) * Rpower 10 (1 - IZR figs) * (1 + eps)))%R.
+Proof. exact eq_accepted_documented_bound. Qed.
+Print Assumptions C15_accepted_documented_bound.
+
+(* ordering: nothing out of order by the tolerance value or more is accepted *)
+Theorem C15_lesser_accepted_within_tolerance : forall acc figs (e a T : F64),
+  (forall L, acc figs L = T) -> is_finite e = true -> is_finite a = true -> is_finite T = true ->
+  is_less_than_double_m acc figs e a = true -> (B2R a < B2R e + B2R T)%R.
+Proof. exact lesser_accepted_within. Qed.
+Print Assumptions C15_lesser_accepted_within_tolerance.
+
+Theorem C15_greater_accepted_within_tolerance : forall acc figs (e a T : F64),
+  (forall L, acc figs L = T) -> is_finite e = true -> is_finite a = true -> is_finite T = true ->
+  is_greater_than_double_m acc figs e a = true -> (B2R e - B2R T < B2R a)%R.
+Proof. exact greater_accepted_within. Qed.
+Print Assumptions C15_greater_accepted_within_tolerance.
+
+(* What remains outside the proof is libm alone: how far T = pow(10, 1 + floor(log10 L) - n) as
+   computed is from the real 10^(1 + floor(log10 L) - n).  The part of that expression that is
+   cgreen's - the exponent and the use of fabs - is pinned by the lemma below; the value of T is
+   measured against exact rational arithmetic on every probe of the correspondence run. *)
 Theorem C15_exponent_as_documented_partial : forall k n,
   accuracy_exponent (EFin k) n = EFin (1 + k - n) /\ accuracy_exponent ENegInf n = ENegInf.
 Proof. intros k n. split; reflexivity. Qed.
